@@ -1,5 +1,6 @@
 import Ovsdb.Model.Client
 import Ovsdb.Theorems.C09
+import Ovsdb.Model.Diff
 /-
   C01 — a monitor-fed cache mirrors the database it monitors (protocol level).
 
@@ -428,6 +429,55 @@ theorem additional_monitor_mirror (strict : Bool) (S1 S2 : List String) (hdisj :
   have := run_notifs_direct strict false (S1 ++ S2) late m2 dbm
     { cache := c3, deferring := false, deferred := [], failed := s1.failed } rfl p2 hn2 hq2
   exact ⟨this.2.1, this.1, this.2.2.2.1⟩
+
+/-! ### the guard on overlapping monitors (defect D72) -/
+
+theorem monitorAccepted_iff (existing : List (List String)) (S : List String) :
+    monitorAccepted existing S = true ↔ ∀ S' ∈ existing, ∀ t, t ∈ S' → t ∉ S := by
+  constructor
+  · intro h S' hS' t ht hts
+    have := List.all_eq_true.mp (List.all_eq_true.mp h S' hS') t ht
+    simp [hts] at this
+  · intro h
+    unfold monitorAccepted
+    refine List.all_eq_true.mpr fun S' hS' => List.all_eq_true.mpr fun t ht => ?_
+    simp [h S' hS' t ht]
+
+/-- **C01 (2')** the additional monitor, with the disjointness of the table sets
+    discharged by the guard the client applies: whatever additional monitor the
+    client accepts ends up mirrored -/
+theorem additional_monitor_mirror_guarded (strict : Bool) (S1 S2 : List String)
+    (hacc : monitorAccepted [S1] S2 = true)
+    (dbj dbk dbm : Store) (pre mid early late : List (List Change))
+    (s0 : ClientSt) (hd0 : s0.deferring = false) (hf0 : s0.failed = false) (hq0 : s0.deferred = [])
+    (hm0 : Mirror S1 s0.cache dbj) (hnone : ∀ k : Key, k.1 ∈ S2 → get? s0.cache.rows k = none)
+    (hold : Chain strict S1 dbj (pre ++ mid) dbk)
+    (hnew : Chain strict (S1 ++ S2) dbk (early ++ late) dbm) :
+    let s := run strict false s0 (pre.map Action.notif ++ [Action.start] ++ mid.map Action.notif ++
+      early.map Action.notif ++ [Action.reply false (initialOf S2 dbk)] ++ late.map Action.notif)
+    s.failed = false ∧ s.deferring = false ∧ Mirror (S1 ++ S2) s.cache dbm :=
+  additional_monitor_mirror strict S1 S2
+    (fun t ht => (monitorAccepted_iff [S1] S2).mp hacc S1 (List.mem_singleton.mpr rfl) t ht)
+    dbj dbk dbm pre mid early late s0 hd0 hf0 hq0 hm0 hnone hold hnew
+
+example : monitorAccepted [["A", "B"]] ["C"] = true := by decide
+example : monitorAccepted [["A", "B"]] ["C", "B"] = false := by decide
+
+def dbT : Store := [(("T", "u1"), [("name", .atom (.str "a"))])]
+
+/-- what the guard prevents: the initial contents of a second monitor of a table
+    are rows the cache already holds (the call fails, the server keeps the
+    monitor) ... -/
+theorem overlapping_monitor_reply_fails :
+    (run true false { deferring := false, cache := { rows := dbT } }
+      [Action.start, Action.reply false (initialOf ["T"] dbT)]).failed = true := by decide
+
+/-- ... and where the table was empty when the second monitor was set up, every
+    later change is notified twice: the same update2 difference applied twice to
+    a set column gives back the value it had before the change -/
+theorem same_difference_twice_restores :
+    (applyDifference (applyDifference (some (.set [.str "p"])) (some (.set [.str "q"]))).1 (some (.set [.str "q"]))).1
+      = some (.set [.str "p"]) := by decide
 
 /-! ### the pinned client loses a delete (defect D22) -/
 
